@@ -537,6 +537,55 @@ def _flatten(v):
     return [v]
 
 
+def check_select_localcopy(facts, pe, fn, n):
+    """`let mut r = *a0; r.limb[i] = MUX(ctl, r.limb[i], a1.limb[i]) for every i; r` (set_cond inlined on a copy)."""
+    body = pe.body
+    d0 = body.single_def(0)
+    if not d0 or d0[2] != "A" or d0[3][2][0] != "use":
+        return None
+    r = operand_local(d0[3][2][1])
+    if r is None or r <= fn["argc"]:
+        return None
+    init_ok = False
+    for d in body.defs().get(r, []):
+        if d[2] == "A" and d[3][2][0] == "use":
+            src = d[3][2][1]
+            if src[0] in ("cp", "mv") and src[1][0] == 1 and all(e == "*" for e in src[1][1:]):
+                init_ok = True
+    if not init_ok:
+        return None
+    stores = {k: v for k, v in pe.final.items() if k[0] == r}
+    if not stores or any(k[0] != r for k in pe.final):
+        return None
+    if pe.stored_before_load:
+        return False, "a limb is re-read after being written (undecided idiom)"
+    s_ = pe.sel()
+    idx = set()
+    sym = False
+    for (root, path), tbl in stores.items():
+        if tbl is None:
+            return False, "value stored to the result copy at %s is not a bitwise function of the operands and the selector" % path
+        own = pe.loaded.get((root, path))
+        oth = pe.loaded.get((2, "*" + path)) or pe.loaded.get((2, path))
+        if own is None or oth is None:
+            return False, "store to the result copy at %s does not combine the corresponding limbs of a0 and a1" % path
+        if not TT.equal(tbl, TT.mux(s_, own, oth)):
+            return False, "stored value at %s is not MUX(ctl, a0 limb, a1 limb)" % path
+        m = re.search(r"\[(\w+)\]$", path)
+        if m and m.group(1).isdigit():
+            idx.add(int(m.group(1)))
+        elif m:
+            sym = True
+        elif n == 1:
+            idx.add(0)
+    if sym:
+        if not loop_range_ok(body, fn, facts, n):
+            return False, "loop does not cover limbs 0..%d" % n
+    elif idx != set(range(n)):
+        return False, "limbs written %s, representation has %d limbs" % (sorted(idx), n)
+    return True, "select = copy of a0 with every limb replaced by MUX(ctl, a0, a1)"
+
+
 def check_select_inline(facts, meng, fn):
     """select written directly on limbs: the returned aggregate's i-th limb is MUX(ctl, a0[i], a1[i])."""
     pe = PrimEval(facts, meng, fn).run()
@@ -544,6 +593,10 @@ def check_select_inline(facts, meng, fn):
         return False, "no parameter named ctl"
     limbs = _flatten(pe.env.get(0))
     n, _e = elem_count(facts, fn, 1)
+    if (limbs is None or len(limbs) != n) and n is not None:
+        r = check_select_localcopy(facts, pe, fn, n)
+        if r is not None:
+            return r
     if limbs is None or n is None:
         return False, "no set_cond call and the returned value is not an aggregate of bitwise limb expressions"
     if len(limbs) != n:
